@@ -137,6 +137,9 @@ JSON JSON::parse(StringReader& r, bool disable_extensions) {
 
       char exp_specifier = r.eof() ? '\0' : r.get_s8(false);
       if (exp_specifier == 'e' || exp_specifier == 'E') {
+        // A number with an exponent is a float (as in other JSON parsers):
+        // 5e-1 is 0.5, and 1e+20 does not fit in an int64
+        is_int = false;
         r.get_s8();
         char sign_char = r.get_s8(false);
         bool e_negative = sign_char == '-';
@@ -151,12 +154,10 @@ JSON JSON::parse(StringReader& r, bool disable_extensions) {
 
         if (e_negative) {
           for (; e > 0; e--) {
-            int_data *= 0.1;
             float_data *= 0.1;
           }
         } else {
           for (; e > 0; e--) {
-            int_data *= 10;
             float_data *= 10;
           }
         }
